@@ -24,6 +24,7 @@ map entries, keyword arguments and the loop of a comprehension at that level; `s
 per component, generalised over the code position, the compiler's loop context and the VM state.
 -/
 import TeraModel.Lemmas.RefineInstr6
+set_option linter.unusedSimpArgs false
 namespace Tera.Refine
 open Tera Tera.Vm Tera.Compiler
 
@@ -1237,7 +1238,7 @@ theorem compr_step (fuel : Nat) (H : SimAt venv vm c lf eenv fuel) :
   have hentJ := CodeAt.single.mp hcJ
   simp only [List.length_append, List.length_singleton, ← Nat.add_assoc] at hentJ hcB
   simp only [evalCompr]
-  have hloops : LoopsSim sc.forLoops st.scope.forLoops := hsc.1
+  have hloops : LoopsSim sc.forLoops st.scope.forLoops := hsc.forLoops
   cases hlE : sc.forLoops with
   | nil => intro h; simp [reportable] at h
   | cons l ls =>
